@@ -8,7 +8,9 @@ import (
 	"math"
 	"os"
 	"runtime/debug"
+	"sort"
 	"strings"
+	"sync"
 
 	"golang.org/x/tools/go/ssa"
 )
@@ -157,6 +159,53 @@ func (p *Path) addPC(c *Term) {
 
 type specAbort struct{}
 
+var (
+	forkLogOn = os.Getenv("VERIF_FORKLOG") != ""
+	forkLogMu sync.Mutex
+	forkLog   = map[string]int{}
+)
+
+// noteFork records where two-sided forks happen (debug aid: VERIF_FORKLOG=1).
+func noteFork(p *Path, kind string) {
+	if !forkLogOn {
+		return
+	}
+	loc := "?"
+	if p.cur != nil && p.cur.fn != nil {
+		loc = p.cur.fn.String()
+		if p.cur.block != nil {
+			loc += fmt.Sprintf("#%d", p.cur.block.Index)
+		}
+		if p.cur.caller != nil && p.cur.caller.fn != nil {
+			loc += " <- " + p.cur.caller.fn.Name()
+		}
+	}
+	forkLogMu.Lock()
+	forkLog[kind+" @ "+loc]++
+	forkLogMu.Unlock()
+}
+
+func dumpForkLog() {
+	if !forkLogOn {
+		return
+	}
+	type kv struct {
+		k string
+		v int
+	}
+	var l []kv
+	for k, v := range forkLog {
+		l = append(l, kv{k, v})
+	}
+	sort.Slice(l, func(i, j int) bool { return l[i].v > l[j].v })
+	for i, e := range l {
+		if i >= 40 {
+			break
+		}
+		fmt.Fprintf(os.Stderr, "fork x%d: %s\n", e.v, e.k)
+	}
+}
+
 func (p *Path) branch(c *Term) bool {
 	if c.IsConst() {
 		return c.C == 1
@@ -188,6 +237,7 @@ func (p *Path) branch(c *Term) bool {
 	p.res.Decisions++
 	if p.feasible(c) {
 		if p.feasible(p.tt.Not(c)) {
+			noteFork(p, "branch")
 			alt := make([]Decision, len(p.trace)+1)
 			copy(alt, p.trace)
 			alt[len(p.trace)] = Decision{0, 0}
@@ -251,6 +301,7 @@ func (p *Path) concretize(t *Term, what string) uint64 {
 		v := vals[0] & mask(t.S.W)
 		c := p.tt.Eq(t, p.tt.Const(t.S.W, v))
 		if p.feasible(p.tt.Not(c)) {
+			noteFork(p, "concretize "+what)
 			alt := make([]Decision, len(p.trace)+1)
 			copy(alt, p.trace)
 			alt[len(p.trace)] = Decision{2, v}
